@@ -3,6 +3,8 @@ from props_common import BASE_TB
 PROP = {
     "modules": ["YorkieModel.Props.C03"],
     "engines": [
+        # integrated engine: real client SDK + real in-process server (memory DB), traffic captured at the HTTP transport
+        {"name": "srv", "args": ["orc=c03"], "quick": {"n": 320, "workers": 8}, "thorough": {"n": 8000, "workers": 14}},
         {"name": "fdoc", "args": ["mix=c03"],
          "quick": {"n": 9600, "workers": 8}, "thorough": {"n": 60000, "workers": 14}},
     ],
